@@ -485,6 +485,52 @@ def rule_r7_bulk(ck, prog, rule='C08.R7', classes=('sdk::common::AttributeMap', 
     return cnt
 
 
+
+def _overwrites_when_present(prog, f, store):
+    """a non-overwriting store (emplace/insert/try_emplace) whose result is kept, followed - on every path on which the result says
+    "not inserted" - by an assignment to the found element (result.first->second = value): last-write-wins all the same"""
+    res = [d for m in f.nodes if m['k'] == 'declstmt' for d in m['decls'] if d.get('init') is not None and d['init'] >= 0 and
+           store['i'] in ([d['init']] + list(f.subtree(d['init'])))]
+    if len(res) != 1:
+        return False
+    vid = res[0]['id']
+    g = Graph(prog, f, inline=None, sync_lambdas=False)
+    sp = g.point_of.get((id(g.root_ctx), store['i']))
+    if sp is None:
+        return False
+
+    def through(idx, names):
+        """member names on the way from expression idx down to the result variable"""
+        seen = []
+        for j in [idx] + list(f.subtree(idx)):
+            m = f.nodes[j]
+            if m['k'] == 'member':
+                seen.append(m['name'])
+            if m['k'] == 'ref' and m.get('id') == vid:
+                return all(x in seen for x in names)
+        return False
+    fixes = []
+    for p in g.points:
+        n = p.n
+        if n is None:
+            continue
+        lhs = n['lhs'] if (n['k'] == 'binop' and n['op'] == '=') else (n.get('obj') if (n['k'] == 'call' and n.get('op') == '=') else None)
+        if lhs is not None and through(lhs, ('first', 'second')):
+            fixes.append(p)
+    if not fixes:
+        return False
+
+    def inserted_edge(a, b, lab):
+        if not lab or not isinstance(lab[0], int):
+            return False
+        core, pol = norm_cond(lab[1], lab[0])
+        cn = lab[1].nodes[core]
+        if cn['k'] == 'member' and cn['name'] == 'second' and through(core, ('second',)) and not through(core, ('first',)):
+            return (lab[2] if pol else not lab[2]) is True
+        return False
+    return g.exit.id not in g.reachable_from([q for (q, _l) in sp.succ], avoid=fixes, avoid_edges=inserted_edge)
+
+
 def rule_r7(ck, prog, rule='C08.R7', setters=('sdk::common::OrderedAttributeMap::SetAttribute', 'sdk::common::AttributeMap::SetAttribute')):
     cnt = 0
     for s in setters:
@@ -493,7 +539,7 @@ def rule_r7(ck, prog, rule='C08.R7', setters=('sdk::common::OrderedAttributeMap:
             stores = [n for n in f.nodes if n['k'] == 'call' and n.get('obj') is not None and
                       strip_targs(n.get('c', '')).rsplit('::', 1)[-1] in NON_OVERWRITING + ('operator[]', 'insert_or_assign') and
                       ('map' in strip_targs(n.get('c', '')))]
-            bad = [n for n in stores if strip_targs(n.get('c', '')).rsplit('::', 1)[-1] in NON_OVERWRITING]
+            bad = [n for n in stores if strip_targs(n.get('c', '')).rsplit('::', 1)[-1] in NON_OVERWRITING and not _overwrites_when_present(prog, f, n)]
             good = [n for n in stores if n not in bad]
             if bad:
                 ck.violation(rule, f, 'last-write-wins-store', bad[0],
